@@ -19,10 +19,10 @@ B_THOROUGH = B_QUICK + ['x64-soft', 'x64-alt1', 'x64-alt2', 'x64-aesni-all', 'a6
 REGISTRY = {
     'C17': dict(module='c17', level='other', technique='dispatch-shape rule over resolved MIR; per-lane term equality / key-lane dependence by global value numbering',
                 quick=['x64-all', 'x64-soft-all', 'x64-soft-aesni-all'], thorough=['x64-all', 'x64-soft-all', 'x64-soft-aesni-all', 'x64-aesni-all', 'x64-alt1-all', 'a64-all', 'a64-soft-all', 'x86-all', 'x86-alt1-all']),
-    'C04': dict(module='c04', level='other', technique='override-discipline and InOut dataflow rules; per-lane term equality (global value numbering) of parallel and single-block routines',
+    'C04': dict(module='c04', level='other', technique='override-discipline and InOut dataflow rules; per-lane term equality (global value numbering, bit-level canonical form for fixslice) of parallel and single-block routines',
                 quick=['x64', 'x64-soft', 'x64-alt1'], thorough=['x64', 'x64-soft', 'x64-alt1', 'x64-alt2', 'a64', 'a64-soft-all', 'x86', 'x86-soft-all', 'x86-alt1-all']),
-    'C03': dict(module='c03', level='other', technique='normalised-MIR equality across feature sets; global value numbering across the serpent_no_unroll configurations',
-                quick=['x64', 'x64-all', 'x64-alt1', 'x64-alt1-all'], thorough=['x64', 'x64-all', 'x64-alt1', 'x64-alt1-all', 'x64-soft', 'x64-soft-all', 'x64-alt2', 'x64-alt2-all', 'a64', 'a64-all', 'x86', 'x86-all']),
+    'C03': dict(module='c03', level='other', technique='normalised-MIR equality across feature sets; global value numbering across the serpent_no_unroll and aes_compact configurations (bit-level canonical form)',
+                quick=['x64', 'x64-all', 'x64-alt1', 'x64-alt1-all', 'x64-soft'], thorough=['x64', 'x64-all', 'x64-alt1', 'x64-alt1-all', 'x64-soft', 'x64-soft-all', 'x64-alt2', 'x64-alt2-all', 'a64', 'a64-all', 'x86', 'x86-all']),
     'C14': dict(module='c14', level='other', technique='delegation-shape and who-may-call rules over resolved monomorphic MIR; global value numbering of the expansion routines against the reference ExpandKey with the state permutation uninterpreted',
                 quick=['x64-all'], thorough=['x64-all', 'a64-all', 'x86-all']),
     'C13': dict(module='c13', level='proof', technique='global value numbering of weak_key_test + bit-level reading of its single decision term against the NIST characterisation',
